@@ -348,6 +348,11 @@ impl<T: Clone> Key<T> {
 
 #[cfg(feature = "verif")]
 impl KademliaPeer {
+    /// Verification hook: what `Kademlia::disconnect_peer` does through `entry.connection = ..`.
+    pub fn verif_set_connection(&mut self, connection: ConnectionType) {
+        self.connection = connection;
+    }
+
     /// Verification hook: read-only view of the peer entry.
     pub fn verif_parts(&self) -> (PeerId, [u8; 32], ConnectionType, Vec<Multiaddr>) {
         (
